@@ -14,7 +14,7 @@ for p in C12 C17 C18; do
   grep -E "^VIOLATION|^  key=|HARNESS|SIM-STALL|check.sh:|vsim-instrument" /var/tmp/benign-$ID-$p.log | head -8
 done
 echo "[$ID] suite=$suite checks:$res"
-mkdir -p /verif/seeded/benign-$ID; cp "$SRC/patch.diff" /verif/seeded/benign-$ID/; [ -f "$SRC/notes.md" ] && cp "$SRC/notes.md" /verif/seeded/benign-$ID/
+mkdir -p /verif/seeded/benign-$ID; [ "$SRC" -ef /verif/seeded/benign-$ID ] || { cp "$SRC/patch.diff" /verif/seeded/benign-$ID/; [ -f "$SRC/notes.md" ] && cp "$SRC/notes.md" /verif/seeded/benign-$ID/; }
 python3 - "$ID" "$suite" "$res" <<'PY'
 import json,sys
 ID,suite,res=sys.argv[1:4]
